@@ -1,0 +1,19 @@
+// Copyright The gittuf Authors
+// SPDX-License-Identifier: Apache-2.0
+
+//go:build verif
+
+package rsl
+
+// VerifCanonicalText returns the canonical commit message gittuf would write
+// for the entry, including its number. It exists only for verification
+// harnesses built with the verif tag.
+func VerifCanonicalText(e Entry) (string, error) {
+	return e.createCommitMessage(true)
+}
+
+// VerifResetCache drops the process-wide RSL parse cache. It must only be
+// called while no other goroutine uses the package.
+func VerifResetCache() {
+	newRSLCache()
+}
